@@ -13,3 +13,92 @@ package db
 //@   trusted
 //@   pure
 //@   ensures err == nil ==> (len(v) > 0) == bk_has(b, str(key))
+
+// ---------------------------------------------------------------------------
+// C19: layered database: writes stay in the overlay until Flush(true) replays them, in order,
+// on the real buckets (container/list abstracted: /verif/specs/list.gospec)
+// ---------------------------------------------------------------------------
+
+//@ property C19
+//@ func (b Bucket) Has(key) (r, err)
+//@   iface
+//@   trusted
+//@   pure
+//@ func (b Bucket) Set(key, value) (err)
+//@   iface
+//@   trusted
+//@   pure
+//@ func (b Bucket) Delete(key) (err)
+//@   iface
+//@   trusted
+//@   pure
+//@ smt all (declare-ghost real_bucket Iface)
+//@ func (d Database) GetBucket(id) (b, err)
+//@   iface
+//@   trusted
+//@   pure
+//@   opt ghost:real_bucket b
+
+// the overlay entry of a key: the list element the map holds and the item stored in it
+//@ spec ovHas(bk, k) = bk.data != nil && hasmap(bk.data)[k]
+//@ spec ovItem(bk, k) = as(ptr_layerBucketItem, valmap(bk.data)[k].Value)
+//@ spec bkInv(bk) = bk != nil && bk.real != nil && (bk.data != nil ==> bk.list != nil && (forall k str :: {hasmap(bk.data)[k]} hasmap(bk.data)[k] ==> valmap(bk.data)[k] != nil && allocated(valmap(bk.data)[k]) && typeof(valmap(bk.data)[k].Value) == typeid(ptr_layerBucketItem) && ovItem(bk, k) != nil && allocated(ovItem(bk, k)) && ovItem(bk, k).key == k))
+
+// reads see the overlay first: an entry (value or tombstone) hides the real bucket completely
+//@ func (bk *layerBucket) Get(key) (v, err)
+//@   arith int
+//@   pure
+//@   requires bkInv(bk)
+//@   callpre Get: !ovHas(bk, str(key))
+//@   ensures [overlay] ovHas(bk, str(key)) ==> err == nil && v == ovItem(bk, str(key)).value
+//@ func (bk *layerBucket) Has(key) (r, err)
+//@   arith int
+//@   pure
+//@   requires bkInv(bk)
+//@   callpre Has: !ovHas(bk, str(key))
+//@   ensures [overlay] ovHas(bk, str(key)) ==> err == nil && r == (ovItem(bk, str(key)).value != nil)
+
+// writes go to the overlay only (while it exists): a Set leaves a non-nil copy of the value - also
+// for an empty value -, a Delete leaves a tombstone; entries of other keys are untouched
+//@ func (bk *layerBucket) Set(key, value) (err)
+//@   arith int
+//@   requires bkInv(bk)
+//@   modifies bk.data[*], all(layerBucketItem.value), all(list.Element.next), all(list.Element.prev), all(list.Element.list), all(layerBucketItems.List)
+//@   callpre Set: bk.data == nil
+//@   ensures [stored] bk.data != nil ==> err == nil && ovHas(bk, str(key)) && ovItem(bk, str(key)).value != nil && len(ovItem(bk, str(key)).value) == len(value) && (forall i int :: {value[i]} 0 <= i && i < len(value) ==> ovItem(bk, str(key)).value[i] == value[i])
+//@   ensures [others] forall k str :: {hasmap(bk.data)[k]} k != str(key) ==> hasmap(bk.data)[k] == old(hasmap(bk.data)[k]) && (hasmap(bk.data)[k] ==> valmap(bk.data)[k] == old(valmap(bk.data)[k]) && ovItem(bk, k).value == old(ovItem(bk, k).value))
+//@   ensures [inv] bkInv(bk)
+//@ func (bk *layerBucket) Delete(key) (err)
+//@   arith int
+//@   requires bkInv(bk)
+//@   modifies bk.data[*], all(layerBucketItem.value), all(list.Element.next), all(list.Element.prev), all(list.Element.list), all(layerBucketItems.List)
+//@   callpre Delete: bk.data == nil
+//@   ensures [tombstone] bk.data != nil ==> err == nil && ovHas(bk, str(key)) && ovItem(bk, str(key)).value == nil
+//@   ensures [others] forall k str :: {hasmap(bk.data)[k]} k != str(key) ==> hasmap(bk.data)[k] == old(hasmap(bk.data)[k]) && (hasmap(bk.data)[k] ==> valmap(bk.data)[k] == old(valmap(bk.data)[k]) && ovItem(bk, k).value == old(ovItem(bk, k).value))
+//@   ensures [inv] bkInv(bk)
+
+// GetBucket: an already opened bucket is handed out again; after a committing flush the real bucket
+// is handed out directly (writes made later must not be parked in an overlay that is never flushed);
+// otherwise a new, empty overlay over the real bucket is registered
+//@ func (ldb *layerDB) GetBucket(id) (b, err)
+//@   arith int
+//@   requires ldb != nil && ldb.real != nil && ldb.buckets != nil
+//@   modifies ldb.buckets[*], ghost(real_bucket)
+//@   ensures [existing] old(hasmap(ldb.buckets)[id]) ==> err == nil && typeof(b) == typeid(ptr_layerBucket) && as(ptr_layerBucket, b) == old(valmap(ldb.buckets)[id])
+//@   ensures [passthrough] !old(hasmap(ldb.buckets)[id]) && err == nil && ldb.flushed ==> b == ghost(real_bucket) && !hasmap(ldb.buckets)[id]
+//@   ensures [overlay] !old(hasmap(ldb.buckets)[id]) && err == nil && !ldb.flushed ==> typeof(b) == typeid(ptr_layerBucket) && fresh(as(ptr_layerBucket, b)) && as(ptr_layerBucket, b).real == ghost(real_bucket) && as(ptr_layerBucket, b).data != nil && hasmap(ldb.buckets)[id] && valmap(ldb.buckets)[id] == as(ptr_layerBucket, b)
+//@   ensures [others] forall k str :: {hasmap(ldb.buckets)[k]} k != id ==> hasmap(ldb.buckets)[k] == old(hasmap(ldb.buckets)[k]) && valmap(ldb.buckets)[k] == old(valmap(ldb.buckets)[k])
+
+// Flush(true) replays every overlay item on the real bucket of its own layer bucket: a non-nil value
+// (also an empty one) as Set of exactly that key and value, a tombstone as Delete of that key
+//@ func (ldb *layerDB) Flush(write) (err)
+//@   arith int
+//@   nosafety
+//@   modifies *
+//@   requires ldb != nil
+//@   callpre Set: item.value != nil && value == item.value && b == item.bk.real && len(key) == len(item.key) && (forall i int :: {key[i]} 0 <= i && i < len(key) ==> key[i] == item.key[i])
+//@   callpre Delete: item.value == nil && b == item.bk.real && len(key) == len(item.key) && (forall i int :: {key[i]} 0 <= i && i < len(key) ==> key[i] == item.key[i])
+//@   loop 0: invariant true
+//@   loop 1: invariant true
+//@   loop 2: invariant true
+//@   loop 3: invariant true
